@@ -55,6 +55,12 @@ var goastWhitelist = []gaKernel{
 	{"pkg/slice", "slice.go", "IndicesToValues"},
 	{"pkg/slice", "slice.go", "CopyValuesFromIndices"},
 	{"pkg/sorter", "sorter.go", "Sorter.removeCols"},
+	{"pkg/objects", "str_list.go", "StrList.seekColumnOffset"},
+	{"pkg/objects", "str_list.go", "StrList.seekColumn"},
+	{"pkg/objects", "str_list.go", "StrList.LessThan"},
+	{"pkg/objects", "block_index.go", "BlockIndex.Len"},
+	{"pkg/objects", "block_index.go", "BlockIndex.Get"},
+	{"pkg/index", "fanout.go", "addToFanoutTable"},
 }
 
 // Outside-world functions ([SOracle] of lib/GoLang.v): calls whose result comes from the store.
@@ -193,6 +199,109 @@ func gaConst(dir, name string) (string, bool) {
 // ---------------------------------------------------------------------------
 // types (strings): int uint8 uint16 uint32 uint64 int8.. bool string error []T *T untyped nil ?
 
+// gaCurDir: package directory of the function being translated (for named types)
+var gaCurDir string
+
+// gaUnderlying: the underlying type of `type name <slice or basic type>` declared in package dir
+func gaUnderlying(dir, name string) (string, bool) {
+	ents, err := os.ReadDir(filepath.Join(gaRoot, dir))
+	if err != nil {
+		return "", false
+	}
+	for _, e := range ents {
+		n := e.Name()
+		if !strings.HasSuffix(n, ".go") || strings.HasSuffix(n, "_test.go") {
+			continue
+		}
+		f := gaParse(filepath.Join(dir, n))
+		if f == nil {
+			continue
+		}
+		for _, d := range f.Decls {
+			gd, ok := d.(*ast.GenDecl)
+			if !ok || gd.Tok != token.TYPE {
+				continue
+			}
+			for _, sp := range gd.Specs {
+				ts := sp.(*ast.TypeSpec)
+				if ts.Name.Name != name || ts.Assign != token.NoPos {
+					continue
+				}
+				if at, ok := ts.Type.(*ast.ArrayType); ok && at.Len == nil {
+					if el, ok := at.Elt.(*ast.Ident); ok {
+						switch el.Name {
+						case "byte", "uint8":
+							return "[]uint8", true
+						case "string", "int", "uint32":
+							return "[]" + el.Name, true
+						}
+					}
+				}
+			}
+		}
+	}
+	return "", false
+}
+
+// gaStructFields: the fields (name, type) of `type name struct {..}` declared in package dir
+func gaStructFields(dir, name string) ([]string, []string, bool) {
+	ents, err := os.ReadDir(filepath.Join(gaRoot, dir))
+	if err != nil {
+		return nil, nil, false
+	}
+	for _, e := range ents {
+		n := e.Name()
+		if !strings.HasSuffix(n, ".go") || strings.HasSuffix(n, "_test.go") {
+			continue
+		}
+		f := gaParse(filepath.Join(dir, n))
+		if f == nil {
+			continue
+		}
+		for _, d := range f.Decls {
+			gd, ok := d.(*ast.GenDecl)
+			if !ok || gd.Tok != token.TYPE {
+				continue
+			}
+			for _, sp := range gd.Specs {
+				ts := sp.(*ast.TypeSpec)
+				st, ok := ts.Type.(*ast.StructType)
+				if ts.Name.Name != name || !ok {
+					continue
+				}
+				names, typs := gaFieldTypes(st.Fields)
+				return names, typs, true
+			}
+		}
+	}
+	return nil, nil, false
+}
+
+// gaRecvStruct: a method whose receiver is (a pointer to) a struct of the package.  The fields
+// become leading parameters named "recv.field"; they may only be READ (the translator has no
+// assignment form for them), so the method is a function of the field values.
+func gaRecvStruct(fd *ast.FuncDecl) (recv string, names, typs []string, ok bool) {
+	if fd.Recv == nil || len(fd.Recv.List) != 1 || len(fd.Recv.List[0].Names) != 1 {
+		return "", nil, nil, false
+	}
+	ty := fd.Recv.List[0].Type
+	if st, isStar := ty.(*ast.StarExpr); isStar {
+		ty = st.X
+	}
+	id, isId := ty.(*ast.Ident)
+	if !isId {
+		return "", nil, nil, false
+	}
+	fn, ft, found := gaStructFields(gaCurDir, id.Name)
+	if !found {
+		return "", nil, nil, false
+	}
+	return fd.Recv.List[0].Names[0].Name, fn, ft, true
+}
+
+var gaBuiltinTypes = map[string]bool{"int": true, "int8": true, "int16": true, "int32": true, "int64": true,
+	"uint8": true, "uint16": true, "uint32": true, "uint64": true, "bool": true, "string": true, "error": true}
+
 func gaTypeStr(e ast.Expr) string {
 	switch t := e.(type) {
 	case *ast.Ident:
@@ -204,12 +313,21 @@ func gaTypeStr(e ast.Expr) string {
 		case "uint":
 			return "uint64"
 		}
+		if !gaBuiltinTypes[t.Name] && gaCurDir != "" {
+			if u, ok := gaUnderlying(gaCurDir, t.Name); ok {
+				return u // a named slice type: methods are resolved by name (see calleeKey)
+			}
+		}
 		return t.Name
 	case *ast.ArrayType:
 		if t.Len == nil {
 			return "[]" + gaTypeStr(t.Elt)
 		}
 	case *ast.StarExpr:
+		// *[N]T: a pointer to an array is an in/out slice of fixed length (x[i] auto-dereferences)
+		if at, ok := t.X.(*ast.ArrayType); ok && at.Len != nil {
+			return "[]" + gaTypeStr(at.Elt)
+		}
 		return "*" + gaTypeStr(t.X)
 	case *ast.SelectorExpr:
 		if id, ok := t.X.(*ast.Ident); ok {
@@ -225,9 +343,9 @@ func gaTypeStr(e ast.Expr) string {
 				return "map[string]struct{}"
 			}
 		}
-		if gaTypeStr(t.Key) == "string" {
+		if k := gaTypeStr(t.Key); k == "string" || k == "uint8" {
 			if v := gaTypeStr(t.Value); v != "?" && !strings.HasPrefix(v, "map[") {
-				return "map[string]" + v
+				return "map[" + k + "]" + v
 			}
 		}
 	}
@@ -342,9 +460,10 @@ type gaLoop struct {
 }
 
 type gaSig struct {
-	key     string
-	params  []string
-	results []string
+	key        string
+	params     []string
+	results    []string
+	recvStruct bool // the leading parameters are the fields of a struct receiver
 }
 
 type gaTr struct {
@@ -363,6 +482,9 @@ type gaTr struct {
 	label    string // pending label for the next loop
 	nparams  int
 	frozen   map[int]int // variables being ranged over: no writes inside the loop body
+	recvName string      // struct receiver identifier ("" if none)
+	recvObj  *ast.Object
+	recvFlds []string // its fields, in declaration order (parameters 0..len-1)
 }
 
 var gaSigs = map[string]*gaSig{} // key "pkg.Func"
@@ -538,6 +660,11 @@ func (t *gaTr) expr(e ast.Expr) (string, string) {
 				return "(EInt " + gaZ(c) + " (*" + x.Sel.Name + "*))", "untyped"
 			}
 		}
+		if id, ok := x.X.(*ast.Ident); ok && t.recvName != "" && id.Name == t.recvName && (t.recvObj == nil || id.Obj == t.recvObj) {
+			if v := t.lookup(t.recvName + "." + x.Sel.Name); v != nil {
+				return t.evar(v), v.typ
+			}
+		}
 		if id, ok := x.X.(*ast.Ident); ok {
 			if v := t.lookup(id.Name); v != nil {
 				if f, ok := gaStructs[v.typ][x.Sel.Name]; ok {
@@ -592,14 +719,15 @@ func (t *gaTr) expr(e ast.Expr) (string, string) {
 	case *ast.IndexExpr:
 		ca, ta := t.expr(x.X)
 		ci, ti := t.expr(x.Index)
-		if _, ok := gaKind(ti); !ok && ti != "untyped" && !strings.HasPrefix(ta, "map[string]") {
+		if _, ok := gaKind(ti); !ok && ti != "untyped" && !strings.HasPrefix(ta, "map[") {
 			return gaUnsE("index of type " + ti), "?"
 		}
-		if strings.HasPrefix(ta, "map[string]") {
-			if ti != "string" {
+		if kt, vt, ok := gaMapType(ta); ok {
+			ck, ok := gaMapKey(kt, ci, ti)
+			if !ok {
 				return gaUnsE("map key of type " + ti), "?"
 			}
-			return "(EMapGet " + ca + " " + ci + " " + gaZeroValue(ta[len("map[string]"):]) + ")", ta[len("map[string]"):]
+			return "(EMapGet " + ca + " " + ck + " " + gaZeroValue(vt) + ")", vt
 		}
 		switch {
 		case ta == "string":
@@ -642,7 +770,7 @@ func (t *gaTr) expr(e ast.Expr) (string, string) {
 			switch {
 			case strings.HasPrefix(ty, "set["):
 				return "(EMakeList (EInt 0) VUnset)", ty // empty set
-			case strings.HasPrefix(ty, "map[string]"):
+			case strings.HasPrefix(ty, "map[string]"), strings.HasPrefix(ty, "map[uint8]"):
 				return "EMapEmpty", ty
 			case ty == "[]uint8":
 				return "(EStr [])", ty
@@ -687,8 +815,66 @@ func (t *gaTr) calleeKey(fun ast.Expr) (string, bool) {
 				return k, true
 			}
 		}
+		if k, ok := t.methodKey(f); ok {
+			return k, true
+		}
 	}
 	return "", false
+}
+
+// methodKey: x.m(..) for a variable x and a translated method T.m of the current package whose
+// receiver type is x's type (a named slice type; method names are unique in the whitelist)
+func (t *gaTr) methodKey(f *ast.SelectorExpr) (string, bool) {
+	id, ok := f.X.(*ast.Ident)
+	if !ok {
+		return "", false
+	}
+	if t.recvName != "" && id.Name == t.recvName && (t.recvObj == nil || id.Obj == t.recvObj) {
+		// recv.m(..): another translated method of the same struct type
+		for k, sg := range gaSigs {
+			if strings.HasPrefix(k, t.pkg+".") && strings.HasSuffix(k, "."+f.Sel.Name) && strings.Count(k, ".") == 2 &&
+				strings.HasPrefix(sg.key, t.dir+"/") && len(sg.params) >= len(t.recvFlds) && sg.recvStruct {
+				return k, true
+			}
+		}
+		return "", false
+	}
+	v := t.lookup(id.Name)
+	if v == nil {
+		return "", false
+	}
+	found := ""
+	for k, sg := range gaSigs {
+		if strings.HasPrefix(k, t.pkg+".") && strings.HasSuffix(k, "."+f.Sel.Name) && strings.Count(k, ".") == 2 &&
+			len(sg.params) > 0 && sg.params[0] == v.typ && strings.HasPrefix(sg.key, t.dir+"/") {
+			if found != "" {
+				return "", false
+			}
+			found = k
+		}
+	}
+	return found, found != ""
+}
+
+// callArgs: the argument expressions of a call of a translated function (receiver first)
+func (t *gaTr) callArgs(x *ast.CallExpr) []ast.Expr {
+	if f, ok := x.Fun.(*ast.SelectorExpr); ok {
+		if id, ok := f.X.(*ast.Ident); ok && t.recvName != "" && id.Name == t.recvName {
+			if _, ok := t.methodKey(f); ok {
+				args := []ast.Expr{}
+				for _, fl := range t.recvFlds {
+					args = append(args, &ast.SelectorExpr{X: id, Sel: ast.NewIdent(fl)})
+				}
+				return append(args, x.Args...)
+			}
+		}
+		if _, isPkg := t.importPathOf(f.X); !isPkg {
+			if _, ok := t.methodKey(f); ok {
+				return append([]ast.Expr{f.X}, x.Args...)
+			}
+		}
+	}
+	return x.Args
 }
 
 // pure argument of fmt.Errorf: evaluating it can neither panic nor have an effect
@@ -820,6 +1006,22 @@ func (t *gaTr) call(x *ast.CallExpr) (string, string) {
 					}
 				}
 				return "EErr", "error"
+			case p == "sort" && sel.Sel.Name == "Search" && len(x.Args) == 2:
+				return t.sortSearch(x)
+			case p == "bytes" && sel.Sel.Name == "Equal" && len(x.Args) == 2:
+				ca, ta := t.expr(x.Args[0])
+				cb, tb := t.expr(x.Args[1])
+				if ta == "[]uint8" && tb == "[]uint8" {
+					return "(EBin Eq " + ca + " " + cb + ")", "bool"
+				}
+				return gaUnsE("bytes.Equal of " + ta + ", " + tb), "?"
+			case p == "bytes" && sel.Sel.Name == "Compare" && len(x.Args) == 2:
+				ca, ta := t.expr(x.Args[0])
+				cb, tb := t.expr(x.Args[1])
+				if ta == "[]uint8" && tb == "[]uint8" {
+					return "(ECompare " + ca + " " + cb + ")", "int"
+				}
+				return gaUnsE("bytes.Compare of " + ta + ", " + tb), "?"
 			case p == "math/bits" && sel.Sel.Name == "Len64" && len(x.Args) == 1:
 				c, ty := t.expr(x.Args[0])
 				if ty == "uint64" {
@@ -861,6 +1063,78 @@ func (t *gaTr) call(x *ast.CallExpr) (string, string) {
 	return gaUnsE("call " + gaSrc(x.Fun)), "?"
 }
 
+// sortSearch inlines sort.Search(n, func(i int) bool { stmts; return e }) as the loop of the
+// standard library (go1.2x sort/search.go):
+//
+//	i, j := 0, n
+//	for i < j {
+//		h := int(uint(i+j) >> 1)
+//		if !f(h) { i = h + 1 } else { j = h }
+//	}
+//	return i
+//
+// The closure body must be straight-line code ending in its only return.
+func (t *gaTr) sortSearch(x *ast.CallExpr) (string, string) {
+	if !t.hoistOK {
+		return gaUnsE("sort.Search in a conditionally evaluated position"), "?"
+	}
+	fl, ok := x.Args[1].(*ast.FuncLit)
+	if !ok || fl.Type.Params == nil || len(fl.Type.Params.List) != 1 || len(fl.Type.Params.List[0].Names) != 1 ||
+		gaTypeStr(fl.Type.Params.List[0].Type) != "int" || fl.Type.Results == nil || len(fl.Type.Results.List) != 1 ||
+		gaTypeStr(fl.Type.Results.List[0].Type) != "bool" || len(fl.Body.List) == 0 {
+		return gaUnsE("sort.Search predicate " + gaSrc(x.Args[1])), "?"
+	}
+	last, ok := fl.Body.List[len(fl.Body.List)-1].(*ast.ReturnStmt)
+	if !ok || len(last.Results) != 1 {
+		return gaUnsE("sort.Search predicate does not end in a return"), "?"
+	}
+	bad := false
+	for _, st := range fl.Body.List[:len(fl.Body.List)-1] {
+		ast.Inspect(st, func(n ast.Node) bool {
+			switch n.(type) {
+			case *ast.ReturnStmt, *ast.BranchStmt, *ast.FuncLit, *ast.ForStmt, *ast.RangeStmt, *ast.GoStmt, *ast.DeferStmt:
+				bad = true
+			}
+			return true
+		})
+	}
+	if bad {
+		return gaUnsE("sort.Search predicate is not straight-line code"), "?"
+	}
+	cn, tn := t.expr(x.Args[0])
+	if !gaIsInt(tn) && tn != "untyped" {
+		return gaUnsE("sort.Search length of type " + tn), "?"
+	}
+	si, sj, sh := t.declare("", "int"), t.declare("", "int"), t.declare("", "int")
+	si.name, sj.name, sh.name = "search.i", "search.j", "search.h"
+	id := t.nloops
+	t.nloops++
+	t.push()
+	pv := t.declare(fl.Type.Params.List[0].Names[0].Name, "int")
+	body := []string{
+		fmt.Sprintf("(SAssign [LVar %d (*search.h*)] [(EWrap (IS 64) (EBin Shr (EWrap (IU 64) (EWrap (IS 64) (EBin Add %s %s))) (EInt 1)))])", sh.idx, t.evar(si), t.evar(sj)),
+		fmt.Sprintf("(SAssign [LVar %d (*%s*)] [%s])", pv.idx, pv.name, t.evar(sh)),
+	}
+	savedPre, savedOK := t.pre, t.hoistOK
+	for _, st := range fl.Body.List[:len(fl.Body.List)-1] {
+		body = append(body, t.stmt(st))
+	}
+	t.pre, t.hoistOK = nil, true
+	cc, tc := t.expr(last.Results[0])
+	body = append(body, t.pre...)
+	t.pre, t.hoistOK = savedPre, savedOK
+	t.pop()
+	if tc != "bool" {
+		return gaUnsE("sort.Search predicate result of type " + tc), "?"
+	}
+	body = append(body, fmt.Sprintf("(SIf (ENot %s)\n(SAssign [LVar %d (*search.i*)] [(EWrap (IS 64) (EBin Add %s (EInt 1)))])\n(SAssign [LVar %d (*search.j*)] [%s]))",
+		cc, si.idx, t.evar(sh), sj.idx, t.evar(sh)))
+	t.pre = append(t.pre,
+		fmt.Sprintf("(SAssign [LVar %d (*search.i*); LVar %d (*search.j*)] [(EInt 0); %s])", si.idx, sj.idx, cn),
+		fmt.Sprintf("(SFor %d (EBin Lt %s %s)\nSSkip\n%s)", id, t.evar(si), t.evar(sj), gaSeq(body)))
+	return t.evar(si), "int"
+}
+
 func gaZeroValue(t string) string {
 	if _, ok := gaKind(t); ok {
 		return "(VInt 0)"
@@ -879,11 +1153,12 @@ func gaZeroValue(t string) string {
 }
 
 func (t *gaTr) args(x *ast.CallExpr, sig *gaSig) ([]string, bool) {
-	if len(x.Args) != len(sig.params) {
+	xargs := t.callArgs(x)
+	if len(xargs) != len(sig.params) {
 		return nil, false
 	}
 	args := []string{}
-	for i, a := range x.Args {
+	for i, a := range xargs {
 		c, ty := t.expr(a)
 		if ty != sig.params[i] && !(ty == "untyped" && gaIsInt(sig.params[i])) {
 			return nil, false
@@ -943,10 +1218,12 @@ func (t *gaTr) lhs(e ast.Expr) (string, string) {
 		}
 	case *ast.IndexExpr:
 		if id, ok := x.X.(*ast.Ident); ok {
-			if v := t.lookup(id.Name); v != nil && strings.HasPrefix(v.typ, "map[string]") && v.idx >= t.nparams && t.frozen[v.idx] == 0 {
+			if v := t.lookup(id.Name); v != nil && strings.HasPrefix(v.typ, "map[") && v.idx >= t.nparams && t.frozen[v.idx] == 0 {
 				ck, tk := t.expr(x.Index)
-				if tk == "string" {
-					return fmt.Sprintf("(LMapSet %d (*%s*) %s)", v.idx, v.name, ck), v.typ[len("map[string]"):]
+				if kt, vt, ok := gaMapType(v.typ); ok {
+					if k2, ok := gaMapKey(kt, ck, tk); ok {
+						return fmt.Sprintf("(LMapSet %d (*%s*) %s)", v.idx, v.name, k2), vt
+					}
 				}
 				return "", ""
 			}
@@ -1031,6 +1308,28 @@ func (t *gaTr) bufferWrite(call *ast.CallExpr) string {
 	return ""
 }
 
+// gaMapType: "map[string]V" / "map[uint8]V" -> (key type, value type)
+func gaMapType(ty string) (string, string, bool) {
+	for _, k := range []string{"string", "uint8"} {
+		if strings.HasPrefix(ty, "map["+k+"]") {
+			return k, ty[len("map["+k+"]"):], true
+		}
+	}
+	return "", "", false
+}
+
+// gaMapKey: the key expression of a map access ([VMap] is keyed by byte strings; a uint8 key is
+// its one-byte string)
+func gaMapKey(kt, ck, tk string) (string, bool) {
+	switch {
+	case kt == "string" && tk == "string":
+		return ck, true
+	case kt == "uint8" && (tk == "uint8" || tk == "untyped"):
+		return "(EKeyOfInt " + ck + ")", true
+	}
+	return "", false
+}
+
 func (t *gaTr) isIntSet(e ast.Expr) bool {
 	if ix, ok := e.(*ast.IndexExpr); ok {
 		if id, ok := ix.X.(*ast.Ident); ok {
@@ -1093,7 +1392,12 @@ func (t *gaTr) assign(s *ast.AssignStmt) string {
 			if b, ok := s.Lhs[0].(*ast.Ident); ok && b.Name == "_" {
 				var cm, tm, ck, tk string
 				pre := t.withPre(func() { cm, tm = t.expr(ix.X); ck, tk = t.expr(ix.Index) })
-				if strings.HasPrefix(tm, "map[string]") && tk == "string" {
+				if kt, _, isMap := gaMapType(tm); isMap {
+					if k2, okk := gaMapKey(kt, ck, tk); okk {
+						ck, tk = k2, "string"
+					}
+				}
+				if _, _, isMap := gaMapType(tm); isMap && tk == "string" {
 					ls, ok := t.targets(&ast.AssignStmt{Lhs: s.Lhs[1:], Tok: s.Tok, Rhs: s.Rhs}, []string{"bool"})
 					if ok {
 						return gaSeq(append(pre, "(SAssign "+gaList(ls)+" [(EMapHas "+cm+" "+ck+")])"))
@@ -1253,6 +1557,51 @@ func (t *gaTr) findLoop(label *ast.Ident) (int, bool) {
 	return 0, false
 }
 
+// rangeMap: for k, v := range m over a map; the order is the oracle's (SRangeMap)
+func (t *gaTr) rangeMap(x *ast.RangeStmt, label string, pre []string, cx, kt, vt string) string {
+	if x.Tok != token.DEFINE {
+		return gaUnsS("range over a map into existing variables")
+	}
+	t.push()
+	defer t.pop()
+	kv := [2]string{"None", "None"}
+	for i, e := range []ast.Expr{x.Key, x.Value} {
+		if e == nil {
+			continue
+		}
+		id, ok := e.(*ast.Ident)
+		if !ok {
+			return gaUnsS("range target " + gaSrc(e))
+		}
+		if id.Name == "_" {
+			continue
+		}
+		ty := kt
+		if i == 1 {
+			ty = vt
+		}
+		v := t.declare(id.Name, ty)
+		kv[i] = fmt.Sprintf("(Some %d%%nat (*%s*))", v.idx, v.name)
+	}
+	id := t.nloops
+	t.nloops++
+	t.loops = append(t.loops, gaLoop{id, label})
+	ranged := gaRootVar(t, x.X)
+	if ranged >= 0 {
+		t.frozen[ranged]++
+	}
+	body := t.block(x.Body)
+	if ranged >= 0 {
+		t.frozen[ranged]--
+	}
+	t.loops = t.loops[:len(t.loops)-1]
+	intkey := "false"
+	if kt == "uint8" {
+		intkey = "true"
+	}
+	return gaSeq(append(pre, fmt.Sprintf("(SRangeMap %d %s %s %s %s\n%s)", id, kv[0], kv[1], intkey, cx, body)))
+}
+
 func (t *gaTr) stmt(s ast.Stmt) string {
 	label := t.label
 	t.label = ""
@@ -1369,8 +1718,11 @@ func (t *gaTr) stmt(s ast.Stmt) string {
 	case *ast.RangeStmt:
 		var cx, tx string
 		pre := t.withPre(func() { cx, tx = t.expr(x.X) })
+		if kt, vt, isMap := gaMapType(tx); isMap {
+			return t.rangeMap(x, label, pre, cx, kt, vt)
+		}
 		if !strings.HasPrefix(tx, "[]") {
-			return gaUnsS("range over " + tx + " (only slices; a string ranges over runes)")
+			return gaUnsS("range over " + tx + " (only slices and maps; a string ranges over runes)")
 		}
 		t.push()
 		defer t.pop()
@@ -1515,7 +1867,18 @@ func gaFieldTypes(fl *ast.FieldList) (names []string, typs []string) {
 
 // gaRecvParam: a value receiver whose named type is a slice type becomes the first parameter
 func gaRecvParam(fd *ast.FuncDecl) (string, string, bool) {
-	return "", "", false
+	if fd.Recv == nil || len(fd.Recv.List) != 1 || len(fd.Recv.List[0].Names) != 1 {
+		return "", "", false
+	}
+	id, ok := fd.Recv.List[0].Type.(*ast.Ident) // value receiver only
+	if !ok {
+		return "", "", false
+	}
+	u, ok := gaUnderlying(gaCurDir, id.Name)
+	if !ok {
+		return "", "", false
+	}
+	return fd.Recv.List[0].Names[0].Name, u, true
 }
 
 func goastFunc(k gaKernel) string {
@@ -1525,6 +1888,7 @@ func goastFunc(k gaKernel) string {
 	if fd == nil || fd.Body == nil {
 		return head + "  {| f_nparams := 0; f_nvars := 0; f_outs := []; f_body := SUnsupported \"function not found\" |}.\n"
 	}
+	gaCurDir = k.dir
 	t := &gaTr{pkg: f.Name.Name, dir: k.dir, imports: map[string]string{}, outs: map[int]bool{}, frozen: map[int]int{}}
 	for _, im := range f.Imports {
 		p, _ := strconv.Unquote(im.Path.Value)
@@ -1541,9 +1905,19 @@ func goastFunc(k gaKernel) string {
 		// a receiver that the body never mentions is dropped; any other receiver is refused
 		// (methods on slice types are handled by gaRecvParam)
 		rn, rt, ok := gaRecvParam(fd)
+		sr, sfn, sft, sok := gaRecvStruct(fd)
+		used := len(fd.Recv.List[0].Names) == 1 && gaUsesIdent(fd.Body, fd.Recv.List[0].Names[0])
 		switch {
+		case !used: // a receiver that the body never mentions is dropped
 		case ok:
 			pn, pt = append([]string{rn}, pn...), append([]string{rt}, pt...)
+		case sok:
+			t.recvName, t.recvObj, t.recvFlds = sr, fd.Recv.List[0].Names[0].Obj, sfn
+			fp := []string{}
+			for _, f := range sfn {
+				fp = append(fp, sr+"."+f)
+			}
+			pn, pt = append(fp, pn...), append(append([]string{}, sft...), pt...)
 		case len(fd.Recv.List[0].Names) == 1 && gaUsesIdent(fd.Body, fd.Recv.List[0].Names[0]):
 			ss = append(ss, gaUnsS("receiver "+fd.Recv.List[0].Names[0].Name+" is used"))
 		}
@@ -1589,9 +1963,19 @@ func goastEmit(repoRoot, outPath string) {
 		if fd == nil {
 			continue
 		}
+		gaCurDir = k.dir
 		_, pt := gaFieldTypes(fd.Type.Params)
 		_, rt := gaFieldTypes(fd.Type.Results)
-		gaSigs[f.Name.Name+"."+k.name] = &gaSig{key: k.dir + "/" + k.name, params: pt, results: rt}
+		isStruct := false
+		if fd.Recv != nil && len(fd.Recv.List[0].Names) == 1 && gaUsesIdent(fd.Body, fd.Recv.List[0].Names[0]) {
+			if _, rty, ok := gaRecvParam(fd); ok {
+				pt = append([]string{rty}, pt...)
+			} else if _, _, sft, ok := gaRecvStruct(fd); ok {
+				pt = append(append([]string{}, sft...), pt...)
+				isStruct = true
+			}
+		}
+		gaSigs[f.Name.Name+"."+k.name] = &gaSig{key: k.dir + "/" + k.name, params: pt, results: rt, recvStruct: isStruct}
 	}
 	var sb strings.Builder
 	sb.WriteString("(** GENERATED by /verif/translator (goast.go) from the Go sources of /repo on every run. DO NOT EDIT.\n")
